@@ -170,8 +170,9 @@ class C24(Property):
                         # re-synchronise so that later operations are judged on equal trees again
                         shutil.rmtree(rroot, ignore_errors=True)
                         subprocess.run(["cp", "-a", lroot, rroot], check=True, timeout=60)
-                    if (ls != rs or lres != rres or rres == ["error"]) and done:
-                        # a mis-parsed command may have killed or confused the persistent shell: start the next operation on a fresh one
+                    if done:
+                        # a mis-parsed (unquoted) command may have killed or confused the persistent shell, after which BaseConnector.run
+                        # silently falls back to exec without a shell: every operation is judged on a fresh shell
                         try:
                             await holder["conn"].undeploy(False)
                         except Exception:  # noqa: BLE001
@@ -305,6 +306,8 @@ class C24(Property):
         if name == "size":
             return "size:remote-follows-symlinks-and-counts-differently" if any(v[0] == "l" for v in lsnap.values()) else "size:differs"
         if name == "walk":
+            if any("\n" in k for k in lsnap) and rres == ["error"]:
+                return "walk:name-with-newline-breaks-splitlines"
             if any(v[0] == "l" for v in lsnap.values()):
                 return "walk:symlinks-listed-differently"
             if any(c in k for k in lsnap for c in "\n") or any(k != k.strip() or k.split("/")[-1] != k.split("/")[-1].strip() for k in lsnap):
